@@ -67,18 +67,16 @@ theorem exprScan_term (s : Bool) : ∀ (n : Nat) (stack cs t r : List Nat),
       · cases h
       · split at h
         · split at h
-          · split at h
-            · cases h
-            · cases hcs : Spec.closeString c true (cs.drop 2) with
-              | none => simp [hcs] at h
-              | some p =>
-                obtain ⟨s', r1⟩ := p
-                simp only [hcs] at h
-                rename_i ht _
-                refine cont (c :: c :: c :: s') stack r1 h ?_
-                have e : cs = cs.take 2 ++ cs.drop 2 := (List.take_append_drop 2 cs).symm
-                rw [ht, cs_split _ _ _ _ _ hcs] at e
-                simp; exact e
+          · rename_i ht
+            cases hcs : Spec.closeString c true (cs.drop 2) with
+            | none => simp [hcs] at h
+            | some p =>
+              obtain ⟨s', r1⟩ := p
+              simp only [hcs] at h
+              refine cont (c :: c :: c :: s') stack r1 h ?_
+              have e : cs = cs.take 2 ++ cs.drop 2 := (List.take_append_drop 2 cs).symm
+              rw [ht, cs_split _ _ _ _ _ hcs] at e
+              simp; exact e
           · cases hcs : Spec.closeString c false cs with
             | none => simp [hcs] at h
             | some p =>
@@ -121,16 +119,20 @@ theorem take_drop_takeWhile {α} (p : α → Bool) (l : List α) :
       rw [← ih]
     · simp [List.takeWhile_cons, h]
 
-theorem ulen_spaces (ws : List Nat) (h : ws.all (· = 32) = true) : Spec.ulen ws = ws.length := by
+theorem ulen_spaces (ws : List Nat) (h : ws.all isBlankAfterEq = true) : Spec.ulen ws = ws.length := by
   induction ws with
   | nil => rfl
   | cons a l ih =>
     simp at h
-    rw [ulen_cons, ih (by simpa using h.2), h.1]
-    simp [csize]; omega
+    have ha : csize a = 1 := by
+      have := h.1
+      simp only [isBlankAfterEq, Bool.or_eq_true, decide_eq_true_eq] at this
+      unfold csize; rw [if_pos (by omega)]
+    rw [ulen_cons, ih (by simpa using h.2), ha]
+    simp; omega
 
 theorem fv_spaces (lookup : List Nat → Option Nat) (kind : Kind) (nested location : Nat) :
-    ∀ (ws : List Nat), ws.all (· = 32) = true → ∀ (st : FvState) (cs : List Nat) (loc fuel : Nat),
+    ∀ (ws : List Nat), ws.all isBlankAfterEq = true → ∀ (st : FvState) (cs : List Nat) (loc fuel : Nat),
       st.selfDoc = true →
       fvLoop lookup kind (fuel + ws.length) nested location st (ws ++ cs) loc =
         fvLoop lookup kind fuel nested location { st with trailing := st.trailing ++ ws } cs (loc + ws.length) := by
@@ -140,10 +142,10 @@ theorem fv_spaces (lookup : List Nat → Option Nat) (kind : Kind) (nested locat
   | cons a l ih =>
     intro h st cs loc fuel hs
     simp at h
-    obtain ⟨rfl, hl⟩ := h
-    have := ih (by simpa using hl) { st with trailing := st.trailing ++ [32] } cs (loc + 1) fuel hs
+    obtain ⟨ha, hl⟩ := h
+    have := ih (by simpa using hl) { st with trailing := st.trailing ++ [a] } cs (loc + 1) fuel hs
     simp only [List.length_cons, List.cons_append]
-    rw [← Nat.add_assoc, fv_space lookup kind _ nested location st _ loc hs, this]
+    rw [← Nat.add_assoc, fv_space lookup kind _ nested location st a _ loc ha hs, this]
     congr 1
     · simp
     · omega
@@ -192,9 +194,19 @@ theorem eq_sim (lvl location : Nat) (r0 : List Nat) (sd : Option (List Nat)) (r1
   split at h
   · rename_i r
     cases h
-    simp only [Spec.eqOutside, Bool.or_eq_false_iff, Bool.not_eq_false', decide_eq_false_iff_not] at hout
-    obtain ⟨hws, hl⟩ := hout
+    simp only [Spec.eqOutside, Bool.or_eq_false_iff, decide_eq_false_iff_not] at hout
+    obtain ⟨hcr, hl⟩ := hout
     have hsplit := take_drop_takeWhile Spec.isSpace r
+    have hws : (r.takeWhile Spec.isSpace).all isBlankAfterEq = true := by
+      have hsp := PV.C06.takeWhile_all Spec.isSpace r
+      rw [List.all_eq_true] at hsp ⊢
+      rw [List.any_eq_false] at hcr
+      intro x hx
+      have h1 := hsp x hx
+      have h2 := hcr x hx
+      simp only [Spec.isSpace, Bool.or_eq_true, Bool.and_eq_true, decide_eq_true_eq] at h1 h2
+      simp only [isBlankAfterEq, Bool.or_eq_true, decide_eq_true_eq]
+      omega
     generalize r.takeWhile Spec.isSpace = ws at hws hsplit ⊢
     generalize r.drop ws.length = rr at hsplit ⊢
     subst hsplit
